@@ -1,6 +1,7 @@
 package rules
 
 import (
+	"go/token"
 	"go/types"
 	"sort"
 	"strings"
@@ -70,7 +71,8 @@ func fieldsReadDeep(fn *ssa.Function, typ *types.Named, depth int) map[string]bo
 
 func c38(r *core.Run) {
 	r.Explanation = "Decided clause (narrow): the pretty printer renders every field it rendered on the reviewed tree — for every ast node type with a Doc method, the set of the node's own fields read by Doc (through function literals and same-package helpers, depth 2) " +
-		"includes the set pinned from the reviewed tree (tables/c38_doc_fields.json): a field that is no longer read cannot appear in the printed program, so re-parsing cannot reproduce it (an access modifier, a purity annotation, a type argument list, a transfer operator)."
+		"includes the set pinned from the reviewed tree (tables/c38_doc_fields.json): a field that is no longer read cannot appear in the printed program, so re-parsing cannot reproduce it (an access modifier, a purity annotation, a type argument list, a transfer operator); " +
+		"(R2) every Doc method still makes the decisions (branch conditions, by operator/callee and operand origins) and calls the module helpers it did on the reviewed tree (tables/c38_doc_decisions.json)."
 	r.NotDecided = "that the printed text re-parses to an equal AST (precedence and parenthesisation, keyword spelling, separators); fields that were never printed."
 	w := r.W
 	p := w.Pkg("ast")
@@ -112,6 +114,7 @@ func c38(r *core.Run) {
 	}
 	if genMode() {
 		genJSON(r, "c38_doc_fields", got)
+		c38Decisions(r, "R2.decisions")
 		return
 	}
 	var pinned map[string][]string
@@ -138,11 +141,111 @@ func c38(r *core.Run) {
 			"the printer no longer reads field(s) "+strings.Join(missing, ",")+" of this node: they cannot appear in the printed program, so the re-parsed AST differs")
 	}
 	r.Floor("R1.fields", 50)
+	c38Decisions(r, "R2.decisions")
+	r.Floor("R2.decisions", 60)
+}
+
+// c38Decisions: the decisions the printer makes and the helpers it consults — for every Doc method of package ast the set of
+// branch conditions (described by operator / callee and the data-flow origins of the operands, polarity ignored) and the set
+// of module functions called must include the sets pinned from the reviewed tree: a parenthesisation test that loses a
+// conjunct, a dropped `exactly one statement` guard, or a separator that is no longer asked of the node are reported.
+// Added conditions and calls, reordering and restructuring are not.
+func c38Decisions(r *core.Run, rule string) {
+	w := r.W
+	type entry struct {
+		Conds []string `json:"conds"`
+		Calls []string `json:"calls"`
+	}
+	got := map[string]entry{}
+	for _, fn := range w.SrcFuncsIn("ast") {
+		if fn.Parent() != nil || fn.Name() != "Doc" || fn.Signature.Recv() == nil || fn.Synthetic != "" {
+			continue
+		}
+		conds, calls := map[string]bool{}, map[string]bool{}
+		core.Instrs(fn, true, func(in ssa.Instruction) {
+			switch x := in.(type) {
+			case *ssa.If:
+				c := x.Cond
+				for {
+					if u, ok := c.(*ssa.UnOp); ok && u.Op == token.NOT {
+						c = u.X
+						continue
+					}
+					break
+				}
+				if phi, isPhi := c.(*ssa.Phi); isPhi {
+					for _, e := range phi.Edges {
+						if _, isConst := e.(*ssa.Const); !isConst {
+							conds[normCond(core.ValueDesc(e))] = true
+						}
+					}
+					return
+				}
+				conds[normCond(core.ValueDesc(c))] = true
+			case ssa.CallInstruction:
+				if o := core.Callee(x); o != nil && o.Pkg() != nil && core.InMod(o.Pkg().Path()) {
+					calls[o.Name()] = true
+				}
+			}
+		})
+		got[core.SSAKey(fn)] = entry{sortedKeys(conds), sortedKeys(calls)}
+	}
+	if genMode() {
+		genJSON(r, "c38_doc_decisions", got)
+		return
+	}
+	var pinned map[string]entry
+	if !r.Table("c38_doc_decisions", &pinned) {
+		return
+	}
+	for _, k := range sortedKeys(pinned) {
+		cur, ok := got[k]
+		if !ok {
+			r.Undecided(rule, k, "Doc method does not resolve")
+			continue
+		}
+		have := map[string]bool{}
+		for _, c := range cur.Conds {
+			have["c:"+c] = true
+		}
+		for _, c := range cur.Calls {
+			have["f:"+c] = true
+		}
+		var missing []string
+		for _, c := range pinned[k].Conds {
+			if !have["c:"+c] {
+				missing = append(missing, "condition "+c)
+			}
+		}
+		for _, c := range pinned[k].Calls {
+			if !have["f:"+c] {
+				missing = append(missing, "call of "+c)
+			}
+		}
+		r.Check(len(missing) == 0, rule, k+": decisions and helpers of the reviewed printer", 0, itoa(len(pinned[k].Conds))+" conditions, "+itoa(len(pinned[k].Calls))+" helpers still present",
+			"the printer no longer makes a decision / consults a helper it did on the reviewed tree: "+strings.Join(missing, "; ")+" — the printed form of some programs changes (parentheses, separators, dropped statements) and re-parses to a different AST")
+	}
+}
+
+// normCond maps complementary comparison operators to one spelling (polarity is ignored).
+func normCond(s string) string {
+	for _, p := range [][2]string{{">=(", "<("}, {"<=(", ">("}, {"!=(", "==("}} {
+		if strings.HasPrefix(s, p[0]) {
+			return p[1] + "~" + s[len(p[0]):]
+		}
+	}
+	for _, p := range []string{"<(", ">(", "==("} {
+		if strings.HasPrefix(s, p) {
+			return p + "~" + s[len(p):]
+		}
+	}
+	return s
 }
 
 func c39(r *core.Run) {
 	r.Explanation = "Decided clauses (narrow): (R1) formatter.Format returns a result without error only on paths on which the comment map was found empty (no orphaned comment) and, unless Options.SkipVerify is set, verify.RoundTrip returned nil; " +
-		"(R2) CommentMap.IsEmpty examines every comment store of the map (header, footer, leading, trailing, same-line); (R3) consuming accessors consume: TakeRaw deletes from every map it reads, TakeHeader/TakeFooter reset the slice they return — so a comment handed to the renderer cannot be handed out again."
+		"(R2) CommentMap.IsEmpty examines every comment store of the map (header, footer, leading, trailing, same-line); (R3) consuming accessors consume: TakeRaw deletes from every map it reads, TakeHeader/TakeFooter reset the slice they return — so a comment handed to the renderer cannot be handed out again; " +
+		"(R4) the ast printer keeps the decisions and helpers of the reviewed tree (C38.R2); (R5) a comment list compacted in place is stored back into its comment map."
 	r.NotDecided = "that the formatted source parses to the same AST, idempotence, and that every comment is attached somewhere by trivia.Attach (the self-verification inside Format is itself only structural)."
 	w := r.W
 	// R1 gates
@@ -237,4 +340,84 @@ func c39(r *core.Run) {
 		r.Check(reset, "R3.take", "formatter/trivia.(CommentMap)."+x[0]+": "+x[1]+" reset", fn.Pos(), "the slice handed out is cleared", x[0]+" no longer clears CommentMap."+x[1]+": the comments are handed out again or reported as orphans")
 	}
 	r.Floor("R3.take", 5)
+
+	// R4 the pretty printer the formatter renders with keeps its decisions and helpers (shared with C38.R2)
+	c38Decisions(r, "R4.printer")
+	r.Floor("R4.printer", 60)
+
+	// R5 comment lists filtered in place are written back: wherever package trivia re-slices a comment list taken from one of the
+	// comment maps to length zero (`keep := groups[:0]`) and appends the survivors, the result is stored back into that map
+	// (the map entry still has the old length over the compacted array, so a missing write-back renders a comment twice)
+	nfilter := 0
+	for _, fn := range w.SrcFuncsIn("formatter/trivia") {
+		if fn.Parent() != nil {
+			continue
+		}
+		core.Instrs(fn, true, func(in ssa.Instruction) {
+			sl, ok := in.(*ssa.Slice)
+			if !ok || sl.High == nil {
+				return
+			}
+			if c, isC := sl.High.(*ssa.Const); !isC || c.Value == nil || c.Value.ExactString() != "0" {
+				return
+			}
+			// the sliced list comes from a lookup in a comment map field
+			var src *ssa.Lookup
+			switch x := sl.X.(type) {
+			case *ssa.Lookup:
+				src = x
+			case *ssa.Extract:
+				src, _ = x.Tuple.(*ssa.Lookup)
+			}
+			if src == nil {
+				return
+			}
+			field := fieldLoaded(src.X)
+			if field == "" {
+				return
+			}
+			nfilter++
+			// a MapUpdate on the same map field whose value derives from the re-sliced list
+			stored := false
+			f := in.Parent()
+			core.Instrs(f, false, func(x ssa.Instruction) {
+				mu, ok := x.(*ssa.MapUpdate)
+				if !ok || fieldLoaded(mu.Map) != field {
+					return
+				}
+				seen := map[ssa.Value]bool{}
+				var derives func(v ssa.Value, d int) bool
+				derives = func(v ssa.Value, d int) bool {
+					if v == nil || seen[v] || d > 8 {
+						return false
+					}
+					seen[v] = true
+					if v == ssa.Value(sl) {
+						return true
+					}
+					if vi, ok := v.(ssa.Instruction); ok {
+						for _, op := range vi.Operands(nil) {
+							if op != nil && *op != nil && derives(*op, d+1) {
+								return true
+							}
+						}
+					}
+					return false
+				}
+				if derives(mu.Value, 0) {
+					stored = true
+				}
+			})
+			top := f
+			for top.Parent() != nil {
+				top = top.Parent()
+			}
+			r.Check(stored, "R5.writeback", core.SSAKey(top)+": CommentMap."+field+" filtered in place is stored back", in.Pos(), "the filtered list is written back to the map",
+				"a comment list is compacted in place but the shorter list is not stored back into CommentMap."+field+": the entry keeps its old length and a surviving comment is rendered twice")
+		})
+	}
+	if nfilter == 0 {
+		r.Undecided("R5.writeback", "formatter/trivia", "no in-place filter of a comment list found")
+	}
+	r.Floor("R5.writeback", 1)
 }
